@@ -44,6 +44,15 @@ def _gen_circuit(rng, clifford=False, qudit=False):
                 kw["invert_mask"] = tuple(rng.random() < 0.5 for _ in range(rng.randrange(1, len(mq) + 1)))
             if not clifford and not qudit and rng.random() < 0.25:
                 kw["confusion_map"] = {(0,): np.array([[0.8, 0.2], [0.3, 0.7]])}
+            if qudit and rng.random() < 0.35:
+                # confusion over one or two measured qudits (possibly of different dimensions): a cyclic shift of the joint value, or a noisy read
+                cidx = tuple(range(min(len(mq), rng.choice([1, 2, 2]))))
+                D = int(np.prod([mq[i].dimension for i in cidx]))
+                if rng.random() < 0.5:
+                    M = np.roll(np.eye(D), 1, axis=1)
+                else:
+                    M = 0.7 * np.eye(D) + 0.3 * np.roll(np.eye(D), rng.randrange(1, D), axis=1)
+                kw["confusion_map"] = {cidx: M}
             # repeated keys must keep the same shape
             shape = tuple(x.dimension for x in mq)
             prev = [s for k, s in keys_used if k == key]
@@ -352,4 +361,47 @@ def standin_sympy_conditions(tier, seed):
                 cases=cases, distinct=cases, failures=len(uniq), exhaustive=True, _fails=uniq[:4])
 standin_sympy_conditions.prop = "C02"
 
-STANDINS = [standin_born, standin_born_scenarios, standin_tableau_measure, standin_sampling_statistics, standin_keyed_channels, standin_sympy_conditions]
+
+def standin_confusion_maps(tier, seed):
+    """confusion maps over qudits of different dimensions: every basis state x register order x deterministic / noisy map, as a
+    terminal measurement (sampled all at once) and followed by another operation (measured per repetition): exact distributions"""
+    import cirq
+
+    cases, fails = 0, []
+    qa, qb, qc = cirq.LineQid(0, dimension=2), cirq.LineQid(1, dimension=3), cirq.LineQid(2, dimension=2)
+    shift = lambda d, k: cirq.MatrixGate(np.roll(np.eye(d), k, axis=0), qid_shape=(d,))
+    sims = [("Simulator", lambda s: cirq.Simulator(seed=s)), ("DensityMatrixSimulator", lambda s: cirq.DensityMatrixSimulator(seed=s)),
+            ("Simulator(split_untangled_states=False)", lambda s: cirq.Simulator(seed=s, split_untangled_states=False))]
+    layouts = {"qubit,qutrit": (qa, qb), "qutrit,qubit": (qb, qa), "qubit,qutrit,qubit": (qa, qb, qc)}
+    for (lname, mq), noisy, terminal in itertools.product(layouts.items(), (False, True), (True, False)):
+        dims = [x.dimension for x in mq]
+        D = int(np.prod(dims[:2]))
+        M = np.roll(np.eye(D), 1, axis=1) if not noisy else 0.6 * np.eye(D) + 0.4 * np.roll(np.eye(D), 2, axis=1)
+        cmaps = [{(0, 1): M}, {(1, 0): M}] if len(mq) == 2 else [{(0, 1): M}, {(1, 2): np.roll(np.eye(6), 1, axis=1)}]
+        for cmap in cmaps:
+            for digits in itertools.product(*[range(d) for d in dims]):
+                prep = [shift(x.dimension, v).on(x) for x, v in zip(mq, digits) if v]
+                tail = [] if terminal else [shift(mq[0].dimension, 1).on(mq[0])]
+                circ = cirq.Circuit(prep, cirq.measure(*mq, key="m", confusion_map=cmap), tail)
+                want = refsim.ref_distribution(circ, list(mq))
+                for name, mk in sims:
+                    cases += 1
+                    got = {}
+                    for p_, rec in enumerate_branches(lambda r: _canon_records(mk(r).run(circ, repetitions=1)), max_branches=64):
+                        got[rec] = got.get(rec, 0.0) + p_
+                    if not refsim.dist_close(got, want, atol=1e-6):
+                        fails.append(dict(args=dict(simulator=name, register=lname, confusion_indices=repr(list(cmap)), noisy=noisy, terminal=terminal, prepared=list(digits), circuit=repr(circ)[:1200]),
+                                          failed="confusion-map", clause=f"{name}: with the register prepared in {list(digits)} the reported record distribution is {sorted((k, round(v, 4)) for k, v in got.items())}, "
+                                                                         f"the confusion matrix row gives {sorted((k, round(v, 4)) for k, v in want.items())}"))
+    seen, uniq = set(), []
+    for f_ in fails:
+        k = (f_["args"]["simulator"], f_["args"]["terminal"])
+        if k not in seen:
+            seen.add(k)
+            uniq.append(f_)
+    return dict(function=F + "/simulator.py:StepResult._confuse_results + simulation_state.py:_confuse_result", case="confusion-maps",
+                bound="3 register layouts mixing qubits and a qutrit x 2 index orders x deterministic / noisy map x every basis state x terminal / non-terminal x 3 simulators (exhaustive)",
+                cases=cases, distinct=cases, failures=len(uniq), exhaustive=True, _fails=uniq[:4])
+standin_confusion_maps.prop = "C02"
+
+STANDINS = [standin_born, standin_born_scenarios, standin_tableau_measure, standin_sampling_statistics, standin_keyed_channels, standin_sympy_conditions, standin_confusion_maps]
